@@ -463,6 +463,17 @@ class World(object):
             self.events.insert(idx + 1, ev)
         return True
 
+    def merge_head(self, conn):
+        """Coalesce the next two outbound chunks of conn into one (the transport hands them to the client in one dataReceived)."""
+        if len(conn.s2c) < 2:
+            return False
+        evs = [e for e in self.events if e.kind == "dlv" and e.conn is conn and not e.done]
+        if len(evs) < 2:
+            return False
+        conn.s2c[0:2] = [conn.s2c[0] + conn.s2c[1]]
+        evs[1].done = True
+        return True
+
     def run_fifo(self, k):
         n = 0
         while n < k:
